@@ -5,6 +5,7 @@ CONSTANTS
  DevSlashOnly = TRUE
  DevDotOnly = FALSE
  DevAllowColon = FALSE
+ DevDefaultPartsSkipsNameCheck = FALSE
 INIT Init
 NEXT Next
 INVARIANTS C22_Rejects
